@@ -2,6 +2,7 @@ import ZCV.Lemmas.Misc
 import ZCV.Lemmas.SlotsLoad
 import ZCV.Lemmas.SlotsElab
 import ZCV.Lemmas.SlotsEx
+import ZCV.Lemmas.ImportLoadEx
 namespace ZCV.Props.C12
 open ZCV ZCV.Cfg
 
@@ -451,5 +452,328 @@ example : (∃ e, lsImport Ex.st0 "bad name".toList = .error (.cfg e) ∧ e.kind
     (∃ e, lsImport Ex.st0 "os.path".toList = .error (.cfg e) ∧ e.kind = .schemaResource) ∧
     (∃ e, lsImport Ex.st0 "nosuch".toList = .error (.cfg e) ∧ e.kind = .schemaResource) :=
   ⟨⟨_, rfl, rfl⟩, ⟨_, rfl, rfl⟩, ⟨_, rfl, rfl⟩, ⟨_, rfl, rfl⟩⟩
+
+/-! ### texts WITH `%import` lines against the declarative "conforms with imports" (`ZCV/Spec/ConformsImport.lean`) -/
+
+open ZCV.Conf in
+/-- **The spec's `extend` is what `%import` does.**  `lsImport` succeeds iff `extend` is defined on the load's current
+    schema and the package, and the load then continues with exactly the schema `extend` gives; nothing else of the
+    load's state changes (but the "private copy" flag). -/
+theorem C12_extend_eq_lsImport (st : LS) (pkg : Str) :
+    (lsImport st pkg).toOption =
+      (extend st.schema (st.pkgs pkg)).map fun sch => { st with schema := sch, privateSchema := true } :=
+  lsImport_toOption st pkg
+
+open ZCV.Conf in
+/-- **Accepted ⇔ conforms, with `%import`s, on trees.**  Top-level items (sections and keys of any size and depth,
+    `%import`s anywhere between them) whose headers are spelled as the parser spells them (`lowTops`), imports that
+    keep the schema of the load well-formed (`importsOK`: `schemaOK` at the start and after each successful
+    `%import`): the tree-driven loader returns a configuration iff the items conform in the sense of `conformsI` —
+    every `%import` succeeds; every top-level section, with everything in it, conforms to the schema in force AT ITS
+    POSITION; the top-level container is complete against the fully extended schema. -/
+theorem C12_accept_iff_conformsI (conv : Conv) (pkgs : Str → Pkg) (s : Schema) (tops : List TopItem)
+    (hok : importsOK pkgs s tops = true) (hl : lowTops tops = true) :
+    (∃ r, loadTops conv pkgs s tops = .ok r) ↔ conformsI conv s pkgs tops = true := by
+  have h := loadTops_eq_denoteI conv pkgs s tops hok hl
+  unfold conformsI
+  rw [← h]
+  cases loadTops conv pkgs s tops with
+  | ok r => simp
+  | error e => simp
+
+open ZCV.Conf in
+/-- … and the configuration returned is `denoteI`; the schema the load ends with is the fully extended one -/
+theorem C12_value_eq_denoteI (conv : Conv) (pkgs : Str → Pkg) (s : Schema) (tops : List TopItem)
+    (hok : importsOK pkgs s tops = true) (hl : lowTops tops = true) (v : Val) (sA : Schema)
+    (h : loadTops conv pkgs s tops = .ok (v, sA)) :
+    denoteI conv s pkgs tops = some v ∧ schemaAt s pkgs tops tops.length = some sA := by
+  have h1 := loadTops_eq_denoteI conv pkgs s tops hok hl
+  rw [h] at h1
+  exact ⟨h1.symm, by rw [schemaAt_length]; exact loadTops_schema conv pkgs s tops hok hl v sA h⟩
+
+open ZCV.Conf in
+/-- **`conformsI` in one schema** ("from the importing line onward", made explicit): the items conform iff every
+    `%import` succeeds, every section header — at any depth — names a type KNOWN to the schema in force at the position
+    of its top-level item (`knownAt`), and the text without its `%import` lines conforms (`conforms` of C01) to the
+    fully extended schema.  The value is then `denote` (C02) against that schema. -/
+theorem C12_denoteI_eq_final (conv : Conv) (pkgs : Str → Pkg) (s : Schema) (tops : List TopItem)
+    (hok : importsOK pkgs s tops = true) (hl : lowTops tops = true) :
+    denoteI conv s pkgs tops =
+      (extendBy pkgs s tops).bind fun sF =>
+        if knownAt pkgs s tops then denote conv sF (itemsOf tops) else none :=
+  denoteI_eq_final conv pkgs s tops hok hl
+
+open ZCV.Conf in
+/-- the same as an equivalence -/
+theorem C12_conformsI_iff_final (conv : Conv) (pkgs : Str → Pkg) (s : Schema) (tops : List TopItem)
+    (hok : importsOK pkgs s tops = true) (hl : lowTops tops = true) :
+    conformsI conv s pkgs tops = true ↔
+      ∃ sF, extendBy pkgs s tops = some sF ∧ knownAt pkgs s tops = true ∧ conforms conv sF (itemsOf tops) = true := by
+  unfold conformsI conforms
+  rw [denoteI_eq_final conv pkgs s tops hok hl]
+  cases extendBy pkgs s tops with
+  | none => simp
+  | some sF =>
+    simp only [Option.bind_some, Option.some.injEq, exists_eq_left']
+    cases knownAt pkgs s tops <;> simp
+
+open ZCV.Conf in
+/-- **Use before import, position by position.**  In conforming items, the `k`-th top-level item is a section (or key)
+    all of whose headers name types of `schemaAt … k`, the schema extended by the `%import`s among the first `k`
+    items only: a type that a LATER `%import` provides cannot be used. -/
+theorem C12_type_known_at_position (conv : Conv) (pkgs : Str → Pkg) (s : Schema) (tops : List TopItem)
+    (hok : importsOK pkgs s tops = true) (hl : lowTops tops = true) (hc : conformsI conv s pkgs tops = true)
+    (k : Nat) (i : Item) (hk : tops[k]? = some (.item i)) :
+    ∃ sk, schemaAt s pkgs tops k = some sk ∧ knownItem sk i = true := by
+  obtain ⟨_, _, hkn, _⟩ := (C12_conformsI_iff_final conv pkgs s tops hok hl).mp hc
+  exact knownAt_pos pkgs tops s hkn k i hk
+
+open ZCV.Conf in
+/-- **Accepted ⇔ conforms, for configuration TEXT with `%import` lines.**  For every text of any length (lines,
+    `%define`s, `%include`s of any depth, `%import`s here and in the included resources — through the parser model with
+    its generated patterns), loaded without overrides, such that
+    * no `%import` is met while a section is open (`importsAtTop`; the code allows that, the spec does not cover it), and
+    * the imports of the text keep the schema of the load well-formed (`importsOK`, which includes `schemaOK s`):
+
+    the loader returns a configuration iff the parser accepts the text and its top-level items conform (`conformsI`). -/
+theorem C12_text_accept_iff_conformsI (conv : Conv) (env : Env) (pkgs : Str → Pkg) (s : Schema) (url : Option Str)
+    (lines : List Str) (htop : importsAtTop env url lines)
+    (hok : ∀ tops, treeOfI env url lines = .ok tops → importsOK pkgs s tops = true) :
+    (∃ r, load conv env pkgs s url lines [] = .ok r) ↔
+      ∃ tops, treeOfI env url lines = .ok tops ∧ conformsI conv s pkgs tops = true := by
+  have h := load_eq_denoteI conv env pkgs s url lines htop hok
+  unfold conformsI
+  constructor
+  · rintro ⟨r, hr⟩
+    rw [hr] at h
+    cases ht : treeOfI env url lines with
+    | error e => rw [ht] at h; simp at h
+    | ok tops =>
+      rw [ht] at h
+      simp only [Cfg.toOption_ok, Option.map_some, Option.bind_some] at h
+      exact ⟨tops, rfl, by rw [← h]; rfl⟩
+  · rintro ⟨tops, ht, hc⟩
+    rw [ht] at h
+    simp only [Cfg.toOption_ok, Option.bind_some] at h
+    cases hl : load conv env pkgs s url lines [] with
+    | ok r => exact ⟨r, rfl⟩
+    | error e =>
+      rw [hl] at h
+      simp only [Cfg.toOption_error, Option.map_none] at h
+      rw [← h] at hc
+      cases hc
+
+open ZCV.Conf in
+/-- **… and the value is `denoteI`** of the top-level items of the text; the schema the load ends with (reported as
+    `schemaAfter`) is the schema extended by all the `%import`s of the text -/
+theorem C12_text_value_eq_denoteI (conv : Conv) (env : Env) (pkgs : Str → Pkg) (s : Schema) (url : Option Str)
+    (lines : List Str) (r : LoadResult) (htop : importsAtTop env url lines)
+    (hok : ∀ tops, treeOfI env url lines = .ok tops → importsOK pkgs s tops = true)
+    (h : load conv env pkgs s url lines [] = .ok r) :
+    ∃ tops, treeOfI env url lines = .ok tops ∧ denoteI conv s pkgs tops = some r.value ∧
+      schemaAt s pkgs tops tops.length = some r.schemaAfter := by
+  have e := load_eq_final conv env pkgs s url lines htop hok
+  have e' := load_eq_denoteI conv env pkgs s url lines htop hok
+  rw [h] at e e'
+  cases ht : treeOfI env url lines with
+  | error x => rw [ht] at e'; simp at e'
+  | ok tops =>
+    rw [ht] at e e'
+    simp only [Cfg.toOption_ok, Option.map_some, Option.bind_some] at e e'
+    refine ⟨tops, rfl, e'.symm, ?_⟩
+    rw [schemaAt_length]
+    cases he : extendBy pkgs s tops with
+    | none => rw [he] at e; cases e
+    | some sF =>
+      rw [he] at e
+      simp only [Option.bind_some] at e
+      split at e
+      · cases hd : denote conv sF (itemsOf tops) with
+        | none => rw [hd] at e; cases e
+        | some v =>
+          rw [hd] at e
+          simp only [Option.map_some, Option.some.injEq, Prod.mk.injEq] at e
+          rw [e.2]
+      · cases e
+
+open ZCV.Conf in
+/-- **The text-level theorem in one schema.**  Same hypotheses: the text is accepted iff the parser accepts it, all its
+    `%import`s succeed, every section header names a type known at its position, and the text without its `%import`
+    lines conforms — in the sense of C01 — to the fully extended schema. -/
+theorem C12_text_accept_iff_final (conv : Conv) (env : Env) (pkgs : Str → Pkg) (s : Schema) (url : Option Str)
+    (lines : List Str) (htop : importsAtTop env url lines)
+    (hok : ∀ tops, treeOfI env url lines = .ok tops → importsOK pkgs s tops = true) :
+    (∃ r, load conv env pkgs s url lines [] = .ok r) ↔
+      ∃ tops sF, treeOfI env url lines = .ok tops ∧ extendBy pkgs s tops = some sF ∧ knownAt pkgs s tops = true ∧
+        conforms conv sF (itemsOf tops) = true := by
+  rw [C12_text_accept_iff_conformsI conv env pkgs s url lines htop hok]
+  constructor
+  · rintro ⟨tops, ht, hc⟩
+    obtain ⟨sF, h1, h2, h3⟩ := (C12_conformsI_iff_final conv pkgs s tops (hok tops ht)
+      (treeOfI_low env url lines tops ht)).mp hc
+    exact ⟨tops, sF, ht, h1, h2, h3⟩
+  · rintro ⟨tops, sF, ht, h1, h2, h3⟩
+    exact ⟨tops, ht, (C12_conformsI_iff_final conv pkgs s tops (hok tops ht)
+      (treeOfI_low env url lines tops ht)).mpr ⟨sF, h1, h2, h3⟩⟩
+
+open ZCV.Conf in
+/-- **Imports first.**  A text whose top level is `%import`s followed by import-free items is loaded exactly as the
+    import-free rest is loaded (`loadTree`, the loader of C01 / C02) against the schema extended by the imports:
+    same acceptance, same configuration. -/
+theorem C12_imports_first (conv : Conv) (env : Env) (pkgs : Str → Pkg) (s : Schema) (url : Option Str)
+    (lines : List Str) (imps : List Str) (its : List Item) (htop : importsAtTop env url lines)
+    (hok : importsOK pkgs s (imps.map .imp ++ its.map .item) = true)
+    (htree : treeOfI env url lines = .ok (imps.map .imp ++ its.map .item)) :
+    (load conv env pkgs s url lines []).toOption.map (·.value) =
+      (extendBy pkgs s (imps.map .imp)).bind fun s' => (loadTree conv s' its).toOption := by
+  have hl := treeOfI_low env url lines _ htree
+  obtain ⟨h1, _, h3, _⟩ := first_shape pkgs its imps s
+  rw [h3] at hl
+  rw [load_eq_denoteI conv env pkgs s url lines htop (fun tops ht => by rw [htree] at ht; cases ht; exact hok), htree]
+  simp only [Cfg.toOption_ok, Option.bind_some]
+  rw [denoteI_imports_first conv pkgs s imps its hok hl]
+  cases he : extendBy pkgs s (imps.map .imp) with
+  | none => rfl
+  | some s' =>
+    have hs' : schemaOK s' = true := importsOK_final pkgs _ s s' hok (by rw [h1]; exact he)
+    simp only [Option.bind_some]
+    rw [loadTree_eq_denote conv s' its hs' (tyCanon_of_low s' hs' its hl)]
+
+open ZCV.Conf in
+/-- in particular a text WITHOUT `%import` conforms in the new sense iff it conforms in the sense of C01, with the
+    same value: `denoteI` extends `denote` -/
+theorem C12_denoteI_import_free (conv : Conv) (pkgs : Str → Pkg) (s : Schema) (its : List Item)
+    (hs : schemaOK s = true) (hl : lowItems its = true) :
+    denoteI conv s pkgs (its.map .item) = denote conv s its := by
+  have hok : ∀ (its : List Item), importsOK pkgs s (its.map .item) = true := by
+    intro its
+    induction its with
+    | nil => exact hs
+    | cons i r ih => rw [List.map_cons, importsOK]; exact ih
+  have := denoteI_imports_first conv pkgs s [] its (by simpa using hok its) hl
+  simpa [extendBy] using this
+
+/-- **Use before import is rejected, at text level.**  Any text `A ++ [l] ++ B` (loaded without overrides) where the
+    part `A` before the header line `l = <ty …>` has no `%import` line (nor have the resources it can `%include`) and
+    `ty` is not a type of the application's schema: the load is rejected, whatever `%import` lines follow in `B` —
+    including one that would provide `ty`. -/
+theorem C12_header_before_import_rejected_text (conv : Conv) (env : Env) (pkgs : Str → Pkg) (s : Schema)
+    (url : Option Str) (A B : List Str) (l : Str)
+    (hres : ∀ u ls, env.res u = some ls → ∀ l ∈ ls, NoImportLine l)
+    (hA : ∀ x ∈ A, NoImportLine x) (ty : Str) (nm : Option Str) (e : Bool)
+    (hs : lineShape (strip l) = .open_ ty nm e) (hunknown : s.gettype ty = none) :
+    ∀ r, load conv env pkgs s url (A ++ l :: B) [] ≠ .ok r := by
+  intro r h
+  rw [Conf.load_nil_eq] at h
+  obtain ⟨ps, hps, _⟩ := bind_ok_inv h
+  exact C12_use_before_import_rejected env hres 64 (Conf.activeOf url) url A B l 0
+    { ctx := Conf.loadSt0 conv pkgs s, stack := [], defs := [] } hA ty nm e hs hunknown ps hps
+
+open ZCV.Conf in
+/-- the hypothesis `importsOK` follows from a text-independent one: the schema stays well-formed under every sequence
+    of importable packages -/
+theorem C12_importsOK_of_closed (pkgs : Str → Pkg) (s : Schema) (tops : List TopItem)
+    (h : ∀ (ps : List Str) (sc : Schema), extendBy pkgs s (ps.map .imp) = some sc → schemaOK sc = true) :
+    importsOK pkgs s tops = true :=
+  importsOK_of_closed pkgs tops s h
+
+open ZCV.Conf in
+/-- **`schemaOK` is preserved by `%import`** of a component whose own types are well-formed with respect to the schema
+    the import produces (`compOK`: each type stored under its own name, children well-shaped, slot types known — what the
+    schema loader guarantees of a component it has parsed) -/
+theorem C12_schemaOK_after_import (s s' : Schema) (url : Str) (types : List (Str × TypeEntry)) (impls : List (Str × Str))
+    (hs : schemaOK s = true) (he : extend s (.component url types impls) = some s') (hc : compOK s' types = true) :
+    schemaOK s' = true :=
+  schemaOK_extend s s' url types impls hs he hc
+
+open ZCV.Conf in
+/-- … hence the hypothesis `importsOK` of the text-level theorems follows from `schemaOK s` and `compOK` of each component
+    the text imports (`compsOK`, decidable) -/
+theorem C12_importsOK_of_components (pkgs : Str → Pkg) (s : Schema) (tops : List TopItem)
+    (hs : schemaOK s = true) (hc : compsOK pkgs s tops = true) : importsOK pkgs s tops = true :=
+  importsOK_of_compsOK pkgs tops s hs hc
+
+open ZCV.Conf in
+/-- **The new tree builder extends the old one.**  On a text without `%import` lines (here and in what it can include)
+    `treeOfI` accepts iff `treeOf` (C01 / C02) does, delivers the same items, and meets no `%import` inside a section. -/
+theorem C12_treeOfI_import_free (env : Env) (url : Option Str) (lines : List Str)
+    (hni : ∀ l ∈ lines, NoImportLine l) (hres : ∀ u ls, env.res u = some ls → ∀ l ∈ ls, NoImportLine l) :
+    (treeOfI env url lines).toOption = (treeOf env url lines).toOption.map (List.map .item) ∧
+      importsAtTop env url lines :=
+  treeOfI_import_free env url lines hni hres
+
+open ZCV.Conf in
+/-- … so for import-free texts the right-hand side of `C12_text_accept_iff_conformsI` is the right-hand side of
+    `C01_text_accept_iff_conforms`: the new theorem specialises to the old one -/
+theorem C12_conformsI_import_free_text (conv : Conv) (env : Env) (pkgs : Str → Pkg) (s : Schema) (url : Option Str)
+    (lines : List Str) (hs : schemaOK s = true)
+    (hni : ∀ l ∈ lines, NoImportLine l) (hres : ∀ u ls, env.res u = some ls → ∀ l ∈ ls, NoImportLine l) :
+    (∃ tops, treeOfI env url lines = .ok tops ∧ conformsI conv s pkgs tops = true) ↔
+      ∃ items, treeOf env url lines = .ok items ∧ conforms conv s items = true := by
+  have h := (treeOfI_import_free env url lines hni hres).1
+  constructor
+  · rintro ⟨tops, ht, hc⟩
+    rw [ht] at h
+    cases hT : treeOf env url lines with
+    | error e => rw [hT] at h; cases h
+    | ok items =>
+      rw [hT] at h
+      simp only [Cfg.toOption_ok, Option.map_some, Option.some.injEq] at h
+      subst h
+      have hl := treeOfI_low env url lines _ ht
+      rw [(items_shape pkgs s items).2.2.2] at hl
+      refine ⟨items, rfl, ?_⟩
+      unfold conformsI at hc
+      rw [C12_denoteI_import_free conv pkgs s items hs hl] at hc
+      exact hc
+  · rintro ⟨items, hT, hc⟩
+    rw [hT] at h
+    simp only [Cfg.toOption_ok, Option.map_some] at h
+    rw [Cfg.toOption_eq_some] at h
+    have hl := treeOfI_low env url lines _ h
+    rw [(items_shape pkgs s items).2.2.2] at hl
+    refine ⟨_, h, ?_⟩
+    unfold conformsI
+    rw [C12_denoteI_import_free conv pkgs s items hs hl]
+    exact hc
+
+open ZCV.Conf in
+/-- **Counter-fact: `pkgWF` is not enough.**  The hypothesis on the imported components cannot be weakened to `pkgWF`
+    (the well-formedness that suffices for "no internal error", C07): with a well-formed schema and a `pkgWF` component
+    whose type `box` stores a section child under the EMPTY key (the schema loader never produces that; `schemaOK` /
+    `compOK` exclude it), the items `%import p` / `<box>` `<leak/>` `</box>` are ACCEPTED by the loader —
+    `getsectioninfo` treats the empty key as "no key" — whereas they do not conform: `conformsI` (like `conforms`)
+    lets a child with a key claim only headers carrying that key. -/
+theorem C12_pkgWF_not_enough :
+    (∀ n, pkgWF (Ex.pkgsW n) = true) ∧ schemaOK Ex.schema = true ∧ lowTops Ex.topsW = true ∧
+    (∃ r, loadTops Ex.conv Ex.pkgsW Ex.schema Ex.topsW = .ok r) ∧
+    conformsI Ex.conv Ex.schema Ex.pkgsW Ex.topsW = false ∧ importsOK Ex.pkgsW Ex.schema Ex.topsW = false :=
+  Ex.witness_pkgWF
+
+/-! closed instances of the text-level theorems: `%import p` / `<leak/>` in both orders -/
+
+/-- the hypotheses of `C12_text_accept_iff_conformsI` hold for the two-line text `%import p` / `<leak/>`, its top-level
+    items are `[imp p, <leak/>]`, they conform, and so the theorem ACCEPTS the text … -/
+example : ∃ r, load Ex.conv Ex.env Ex.pkgs Ex.schema none Ex.linesIU [] = .ok r :=
+  (C12_text_accept_iff_conformsI Ex.conv Ex.env Ex.pkgs Ex.schema none Ex.linesIU Ex.atTop_IU Ex.ok_IU).mpr
+    ⟨Ex.topsIU, Ex.tree_IU, Ex.conformsI_IU⟩
+/-- `importsOK` of that text through `C12_importsOK_of_components` -/
+example : Conf.importsOK Ex.pkgs Ex.schema Ex.topsIU = true :=
+  C12_importsOK_of_components Ex.pkgs Ex.schema Ex.topsIU (by decide) Ex.compsOK_IU
+/-- … and REJECTS the same two lines in the other order: the items `[<leak/>, imp p]` do not conform -/
+example : ¬ ∃ r, load Ex.conv Ex.env Ex.pkgs Ex.schema none Ex.linesUI [] = .ok r := by
+  rw [C12_text_accept_iff_conformsI Ex.conv Ex.env Ex.pkgs Ex.schema none Ex.linesUI Ex.atTop_UI Ex.ok_UI]
+  rintro ⟨tops, ht, hc⟩
+  rw [Ex.tree_UI] at ht
+  cases ht
+  rw [Ex.conformsI_UI] at hc
+  cases hc
+/-- the value of the accepted text is `denoteI`: the section in the slot's attribute -/
+example : Conf.denoteI Ex.conv Ex.schema Ex.pkgs Ex.topsIU =
+    some (.sect [] none [("s".toList, .list [.sect "leak".toList none []])]) := by rfl
+/-- `C12_header_before_import_rejected_text` at work on the second text -/
+example : ∀ r, load Ex.conv Ex.env Ex.pkgs Ex.schema none ([] ++ "<leak/>".toList :: ["%import p".toList]) [] ≠ .ok r :=
+  C12_header_before_import_rejected_text Ex.conv Ex.env Ex.pkgs Ex.schema none [] _ _ (fun _ _ h => by cases h)
+    (fun _ h => by cases h) "leak".toList none true Ex.shape_leak rfl
 
 end ZCV.Props.C12
